@@ -34,6 +34,9 @@ def make(cls, rnd, variant=None):
         return (r, "plain", None) if r is not None else None
     if cls == "rewrite":
         return GC.gen_rewrite(rnd), "plain", None
+    if cls == "affine-cascade":
+        s = GC.gen_affine_cascade(rnd)
+        return s, "plain", s._extents
     if cls == "flatten3":
         return GM.gen_flatten3_discordant(rnd), "plain", None
     if cls == "flatten-lookup":
